@@ -201,6 +201,15 @@ def inj_cancel(user: str = "op", reason: str = "test") -> Callable[[Run], None]:
     return f
 
 
+def inj_restart(stage_ref: str) -> Callable[[Run], None]:
+    """Operator restart of a stage (Orchestrator.restart -> RestartStage message)."""
+    def f(run: Run) -> None:
+        run.w.set_ctx(run.steps, "inject-restart")
+        wf = run.w.store.retrieve(run.wf_id)
+        run.w.orch.restart(wf, f"{run.wf_id}-{stage_ref}")
+    return f
+
+
 def inj_signal(stage_ref: str, name: str, data: dict[str, Any] | None, persistent: bool) -> Callable[[Run], None]:
     def f(run: Run) -> None:
         from stabilize.queue.messages import SignalStage
